@@ -148,14 +148,14 @@ func (b *termBuilder) build(v ssa.Value, d int) *Term {
 		owner, st := ownerOfFieldBase(x.X.Type())
 		name := "?"
 		if st != nil {
-			name = st.Field(x.Field).Name()
+			name = fieldNameOf(st.Field(x.Field))
 		}
 		return &Term{Op: "field", Sym: name, Owner: owner, Args: []*Term{b.of(x.X, d+1)}}
 	case *ssa.FieldAddr:
 		owner, st := ownerOfFieldBase(x.X.Type())
 		name := "?"
 		if st != nil {
-			name = st.Field(x.Field).Name()
+			name = fieldNameOf(st.Field(x.Field))
 		}
 		return &Term{Op: "addr", Sym: name, Owner: owner, Args: []*Term{b.of(x.X, d+1)}}
 	case *ssa.UnOp:
